@@ -72,21 +72,32 @@ fn put_header(buf: &mut [u8], h: &Header) {
 
 pub fn check_case(case: &MapCase, st: &mut Stats) -> Check {
     let bytes = case.bytes();
-    let mut buf = write_cache(&bytes)?;
+    let u = Universe::from_ast(&case.file, false);
+    check_faults(&bytes, &u, case.key, case.hash(), st)
+}
+
+/// larger caches (thousands of records, sections of several hundred KiB)
+pub fn check_scale(c: &super::scale::ScaleCase, st: &mut Stats) -> Check {
+    let (file, u) = super::scale::build(c.kind, c.n);
+    let bytes = file.render(&crate::gen::mapping::Render::default());
+    st.class("scale case: every prefix of a large cache");
+    check_faults(&bytes, &u, c.n as u64, crate::engine::fnv64(format!("{:?}{}", c.kind, c.n).as_bytes()), st)
+}
+
+pub fn check_faults(bytes: &[u8], u: &Universe, key: u64, case_hash: u64, st: &mut Stats) -> Check {
+    let mut buf = write_cache(bytes)?;
     let full_len = buf.len();
     let header = layout::read_header(buf.bytes()).ok_or_else(|| Fail::new("layout-decode", "written file shorter than a header"))?;
-    let case_hash = case.hash();
     if expected_parse(full_len, Some(&header)) != ExpectedParse::Ok {
         return Err(Fail::new("layout-decode", format!("layout model does not accept the full file (len {full_len}, header {header:?})")));
     }
     let (c_at, m_at, b_at, s_at, _) = layout::offsets(&header);
     if st.want_sample() && header.num_classes >= 2 {
-        st.sample(|| json!({"mapping": crate::engine::show_bytes(&bytes), "cache_len": full_len, "sections": {"classes": c_at, "members": m_at, "by_params": b_at, "strings": s_at},
-            "faults": format!("every prefix 0..{} and {} header edits", full_len - 1, header_edits(&header, case.key).len())}));
+        st.sample(|| json!({"mapping": crate::engine::show_bytes(&bytes[..bytes.len().min(1500)]), "cache_len": full_len, "sections": {"classes": c_at, "members": m_at, "by_params": b_at, "strings": s_at},
+            "faults": format!("every prefix 0..{} and {} header edits", full_len - 1, header_edits(&header, key).len())}));
     }
     // ---- every strict prefix
-    let u = Universe::from_ast(&case.file, false);
-    let extra = derive_extra(&u, case.key, 2, 0, 3);
+    let extra = derive_extra(u, key, 2, 0, 3);
     for p in 0..full_len {
         st.evaluations += 1;
         let slice = &buf.bytes()[..p];
@@ -106,7 +117,7 @@ pub fn check_case(case: &MapCase, st: &mut Stats) -> Check {
             let full = parse_cache(&buf)?;
             let pre = cur::C(proguard::ProguardCache::parse(slice).map_err(|e| Fail::new("harness", e.to_string()))?);
             let mut scratch = Stats::new();
-            no_panic("query on accepted prefix", || compare_retracers(&full, &pre, &u, &extra, Kinds::decoding(), case_hash, &mut scratch)).map_err(|f| {
+            no_panic("query on accepted prefix", || compare_retracers(&full, &pre, u, &extra, Kinds::decoding(), case_hash, &mut scratch)).map_err(|f| {
                 Fail::new("prefix-accepted-differs", format!("the {p}-byte prefix of a {full_len}-byte cache is accepted but answers differently: {}", f.msg)).with(json!({"prefix": p}))
             })?;
             st.class("strict prefix accepted and equivalent to the full file");
@@ -118,7 +129,7 @@ pub fn check_case(case: &MapCase, st: &mut Stats) -> Check {
     }
     // ---- every single-field edit of the header
     let original: Vec<u8> = buf.bytes()[..layout::HEADER_LEN].to_vec();
-    for (name, _v, h) in header_edits(&header, case.key) {
+    for (name, _v, h) in header_edits(&header, key) {
         if h == header {
             continue;
         }
@@ -142,8 +153,8 @@ pub fn check_case(case: &MapCase, st: &mut Stats) -> Check {
     }
     // ---- foreign headers: magic and version edited together, fully byte-swapped header (file written on a
     // machine of the other endianness). The magic decides first: swapped => endianness, other => format.
-    let magics = [header.magic.swap_bytes(), 0u32, header.magic.wrapping_add(1), (case.key as u32) | 0x0101_0101, u32::from_le_bytes(*b"PK\x03\x04"), u32::from_le_bytes(*b"com.")];
-    let versions = [0u32, 2, u32::MAX, 1u32.swap_bytes(), (case.key >> 32) as u32 | 2];
+    let magics = [header.magic.swap_bytes(), 0u32, header.magic.wrapping_add(1), (key as u32) | 0x0101_0101, u32::from_le_bytes(*b"PK\x03\x04"), u32::from_le_bytes(*b"com.")];
+    let versions = [0u32, 2, u32::MAX, 1u32.swap_bytes(), (key >> 32) as u32 | 2];
     for m in magics {
         for v in versions {
             let mut h = Header { magic: m, version: v, ..header };
@@ -220,6 +231,15 @@ pub fn run(ctx: &Ctx) -> Report {
     rep.assumptions = vec!["buffers are 8-byte aligned (prefixes are sub-slices of an aligned buffer)".into()];
     let n = ctx.cases(10_000, 450_000);
     rep.run_stage("ast", || map_case(&cfg()), n, check_case);
+    let mut scale: Vec<super::scale::ScaleCase> = Vec::new();
+    for (kind, n) in [(super::scale::Kind::ManyClasses, 257usize), (super::scale::Kind::ManyClasses, 4097), (super::scale::Kind::ManyEntries, 4097), (super::scale::Kind::ManyMatching, 257)] {
+        scale.push(super::scale::ScaleCase { kind, n, prop: "C11".into() });
+    }
+    if ctx.tier == crate::engine::Tier::Thorough {
+        scale.push(super::scale::ScaleCase { kind: super::scale::Kind::ManyEntries, n: 65537, prop: "C11".into() });
+        scale.push(super::scale::ScaleCase { kind: super::scale::Kind::ManyClasses, n: 65537, prop: "C11".into() });
+    }
+    rep.run_enum("scale", &scale, check_scale);
     rep.run_stage("foreign", foreign_case, ctx.cases(20_000, 900_000), |c: &ForeignCase, st: &mut Stats| check_foreign(&crate::engine::unhex(&c.hex), st));
     rep.stats.exhaustive.push("per generated cache: all strict prefixes, all listed single-field header edits, and a 6x5x2 grid of foreign (magic, version, byte-swapped counts) headers".into());
     rep
@@ -229,6 +249,7 @@ pub fn replay(stage: &str, case: &Value) -> Check {
     let mut st = Stats::new();
     match stage {
         "ast" => check_case(&serde_json::from_value(case.clone()).map_err(|e| Fail::new("harness-replay", e.to_string()))?, &mut st),
+        "scale" => check_scale(&serde_json::from_value(case.clone()).map_err(|e| Fail::new("harness-replay", e.to_string()))?, &mut st),
         "foreign" => {
             let c: ForeignCase = serde_json::from_value(case.clone()).map_err(|e| Fail::new("harness-replay", e.to_string()))?;
             check_foreign(&crate::engine::unhex(&c.hex), &mut st)
